@@ -17,8 +17,14 @@ class Symtab {
     uint64_t repo_lo() const { return repo_lo_; }
     uint64_t repo_hi() const { return repo_hi_; }
     const std::vector<Sym> &syms() const { return syms_; }
+    // writable static storage (.data / .bss) of the objects compiled from /repo: [lo, hi) pairs, empty if the markers are missing
+    struct Range { uint64_t lo = 0, hi = 0; };
+    Range repo_data() const { return data_; }
+    Range repo_bss() const { return bss_; }
+    std::string data_sym(uint64_t addr) const;  // "name+off" of the data object containing addr, or "?"
   private:
-    std::vector<Sym> syms_;
+    std::vector<Sym> syms_, data_syms_;
+    Range data_, bss_;
     uint64_t repo_lo_ = 0, repo_hi_ = 0;
 };
 extern Symtab g_symtab;
